@@ -37,7 +37,10 @@ type VBufPtr struct{ Obj types.Object }
 type VTuple []Val
 
 // VStrs is a []string: three parallel arrays plus a length.
-type VStrs struct{ B, O, L, N Term }
+type VStrs struct {
+	B, O, L, N      Term
+	Wrap, WrapField string // element type when the slice holds single-string structs
+}
 
 // VIface is an interface{} value: dynamic type tag + string-like contents.
 type VIface struct {
@@ -147,6 +150,9 @@ func valEqualSyntactic(a, b Val) bool {
 	case VRef:
 		y, ok := b.(VRef)
 		return ok && x.T == y.T
+	case VRunes:
+		y, ok := b.(VRunes)
+		return ok && x == y
 	case VNil:
 		_, ok := b.(VNil)
 		return ok
@@ -159,6 +165,9 @@ func valEqualSyntactic(a, b Val) bool {
 	case VHeapMap:
 		y, ok := b.(VHeapMap)
 		return ok && x == y
+	case VFuncChoice:
+		y, ok := b.(VFuncChoice)
+		return ok && strings.Join(x.Conds, ",") == strings.Join(y.Conds, ",") && strings.Join(x.Keys, ",") == strings.Join(y.Keys, ",")
 	case VStruct:
 		y, ok := b.(VStruct)
 		if !ok || x.TName != y.TName {
@@ -250,7 +259,7 @@ func (fx *FuncCtx) iteVal(c Term, a, b Val) Val {
 	case VStrs:
 		switch y := b.(type) {
 		case VStrs:
-			return VStrs{sIte(c, x.B, y.B), sIte(c, x.O, y.O), sIte(c, x.L, y.L), fx.name(sortInt, "mn", sIte(c, x.N, y.N))}
+			return VStrs{B: sIte(c, x.B, y.B), O: sIte(c, x.O, y.O), L: sIte(c, x.L, y.L), N: fx.name(sortInt, "mn", sIte(c, x.N, y.N)), Wrap: x.Wrap, WrapField: x.WrapField}
 		case VNil:
 			return fx.iteVal(c, x, fx.nilStrs())
 		}
@@ -288,6 +297,9 @@ func (fx *FuncCtx) iteVal(c Term, a, b Val) Val {
 		// same pointer expected
 	case VOpaque:
 		return a
+	case VRunes:
+		y := b.(VRunes)
+		return VRunes{fx.name(sortSeq, "mrs", sIte(c, x.Seq, y.Seq)), fx.name(sortInt, "mrn", sIte(c, x.N, y.N))}
 	}
 	panic(unsupported{fmt.Sprintf("cannot merge values %T and %T", a, b)})
 }
